@@ -222,7 +222,9 @@ def _elide(lines, empty_line):
 
 def write_p8(version, code, mem, label=None, elide=False):
     """Reference .p8 writer.  elide=False: all rows of all sections (older PICO-8); elide=True: trailing empty
-    rows of gfx/gff/map/music are omitted and a section left without rows is omitted altogether (newer PICO-8)."""
+    rows of gfx/gff/map/music are omitted and a section left without rows is omitted altogether (newer PICO-8);
+    elide='headers': likewise, but the header line of a section left without rows stays (hand-edited carts)."""
+    keep_headers = elide == 'headers'
     out = [HEADER, b'version %d\n' % version, b'__lua__\n']
     text = p8scii_to_text(code).encode('utf-8')
     out.append(text if (text.endswith(b'\n') or not text) else text + b'\n')
@@ -235,21 +237,21 @@ def write_p8(version, code, mem, label=None, elide=False):
         gff = _elide(gff, b'0' * 256 + b'\n')
         mp = _elide(mp, b'0' * 256 + b'\n')
         music = _elide(music, EMPTY_MUSIC_LINE)
-    if gfx or not elide:
+    if gfx or not elide or keep_headers:
         out.append(b'__gfx__\n')
         out += gfx
     if label is not None:
         out.append(b'__label__\n')
         out += enc_gfx(label)
-    if gff or not elide:
+    if gff or not elide or keep_headers:
         out.append(b'__gff__\n')
         out += gff
-    if mp or not elide:
+    if mp or not elide or keep_headers:
         out.append(b'__map__\n')
         out += mp
     out.append(b'__sfx__\n')
     out += enc_sfx(mem[SFX:CODE])
-    if music or not elide:
+    if music or not elide or keep_headers:
         out.append(b'__music__\n')
         out += music
     out.append(b'\n')
